@@ -218,10 +218,12 @@ namespace pika::detail {
                 *cb->is_removed_ = true;
             }
         }
-        else
+        else if (stop_requested(state_.load(std::memory_order_acquire)))
         {
             // Callback is currently executing on another thread,
-            // block until it finishes executing.
+            // block until it finishes executing. (A callback that was never registered
+            // because no stop can be requested anymore is not executed by anybody: there is
+            // nothing to wait for.)
             pika::util::yield_while(
                 [&]() { return !cb->callback_finished_executing_.load(std::memory_order_relaxed); },
                 "stop_state::remove_callback");
